@@ -259,7 +259,7 @@ spif_mbuff_init_from_fd(spif_mbuff_t self, int fd)
     lseek(fd, file_pos, SEEK_SET);
     if (file_size < 0) {
         spif_byteptr_t p;
-        size_t cnt = 0;
+        ssize_t cnt = 0;
 
         D_OBJ(("Unable to seek to EOF -- %s.\n", strerror(errno)));
         self->size = buff_inc;
